@@ -607,3 +607,46 @@ func VerifC19BranchSelectsNothing() {
 	}
 	c19Finish([]*c19Prod{pa}, "a multi-choice branch that selects fewer targets than it has, next to a plain edge")
 }
+
+// Workflow: a streaming node b finishes a step before the branch of a decides; x takes b's stream through a data-only
+// input and is a target of a's branch, which picks y instead. The stream buffered for x is closed when x becomes
+// skipped: b's producer is released when the caller reads to the end or stops early.
+func VerifC19BufferedThenSkipped() {
+	ctx := context.Background()
+	vcfg("preempt", vtier())
+	vcfg("selectfirst", 1)
+	K := 2
+	pb := &c19Prod{key: "b", k: K}
+	pass := func() *Lambda {
+		return TransformableLambda(func(ctx context.Context, in *schema.StreamReader[map[string]any]) (*schema.StreamReader[map[string]any], error) {
+			return in, nil
+		})
+	}
+	one := func(key string) *Lambda {
+		return InvokableLambda(func(ctx context.Context, in map[string]any) (map[string]any, error) {
+			return map[string]any{key: 1}, nil
+		})
+	}
+	wf := NewWorkflow[map[string]any, map[string]any]()
+	wf.AddLambdaNode("b", pb.lambda(vchoose("cap", 2))).AddInput(START)
+	wf.AddLambdaNode("a1", one("a1")).AddInput(START)
+	wf.AddLambdaNode("a", one("a")).AddInput("a1")
+	wf.AddLambdaNode("x", pass()).AddInputWithOptions("b", nil, WithNoDirectDependency())
+	wf.AddLambdaNode("y", one("y")).AddInputWithOptions("a", nil, WithNoDirectDependency())
+	wf.AddBranch("a", NewGraphBranch(func(ctx context.Context, in map[string]any) (string, error) { return "y", nil }, map[string]bool{"x": true, "y": true}))
+	e := wf.End()
+	e.AddInput("x", ToField("x"))
+	e.AddInput("y", ToField("y"))
+	e.AddInput("b", ToField("b"))
+	r, err := wf.Compile(ctx)
+	vassert(err == nil, "workflow compiles")
+	sr, err := r.Stream(ctx, map[string]any{"in": 1})
+	vassert(err == nil, "stream run starts")
+	readN := vchoose("readN", 3)
+	if readN == 2 {
+		c19ReadAll(sr)
+	} else {
+		c19Read(sr, readN)
+	}
+	c19Finish([]*c19Prod{pb}, "a stream buffered for a node that a later branch decision skips")
+}
